@@ -1,7 +1,9 @@
 (* C20_Spec.v — property C20 as a decidable predicate over what is observable:
    the directory tree handed to the operator, what each hook file does on --config,
    and (a) the paths discovery returned, (b) for an Init run: the --config executions
-   in order, whether Init failed and which hook its error names, GetHookNames().
+   in order, whether Init failed and which hook its error names, GetHookNames(),
+   (c) the by-name index: what GetHook(name) leads to, for every loaded name and for the
+   relative path of every discovered file.
    Written from the property text; it enumerates ALL files of the tree and filters
    them by the stated conditions — it never mentions the walk, its skip rules or the
    sort of the model.  Only the tree type is shared with C20_Model. *)
@@ -80,7 +82,9 @@ Record init_obs := mkInitObs {
 
 Record obs := mkObs {
   o_paths : list bytes;             (* RecursiveGetExecutablePaths(workingDir), as returned *)
-  o_init : option init_obs
+  o_init : option init_obs;
+  o_index : list (bytes * bytes)    (* after an Init run: (name, Path of GetHook(name), "" when nil) for every name of
+                                       GetHookNames() and then for the relative path of every discovered file *)
 }.
 
 Definition wd_of (i : input) : bytes := i_parent i ++ 47 :: i_root i.
@@ -159,11 +163,29 @@ Definition P_init (i : input) (io : init_obs) : bool :=
       end
   end.
 
+(* "each hook is named by its path relative to the hooks directory": in the by-name index
+   a name leads to the file at that relative path and to no other; every loaded hook is
+   found under its name; and when Init succeeds every hook of the statement is found
+   under its relative path (so the index holds as many hooks as were discovered) *)
+Definition is_nil (b : bytes) : bool := match b with [] => true | _ => false end.
+Definition bound_to (idx : list (bytes * bytes)) (name path : bytes) : bool :=
+  existsb (fun kv => bytes_eqb (fst kv) name && bytes_eqb (snd kv) path) idx.
+Definition found_in (idx : list (bytes * bytes)) (name : bytes) : bool :=
+  existsb (fun kv => bytes_eqb (fst kv) name && negb (is_nil (snd kv))) idx.
+
+Definition P_index (i : input) (io : init_obs) (idx : list (bytes * bytes)) : bool :=
+  let wd := wd_of i in
+  forallb (fun kv => is_nil (snd kv) || bytes_eqb (snd kv) (wd ++ 47 :: fst kv)) idx
+  && forallb (found_in idx) (io_names io)
+  && (if N.eqb (io_status io) 0
+      then forallb (fun e => bound_to idx e (wd ++ 47 :: e)) (spec_hooks (i_children i))
+      else true).
+
 Definition P (i : input) (o : obs) : bool :=
   P_paths i o &&
   match o_init o with
-  | None => negb (i_with_init i)
-  | Some io => i_with_init i && P_init i io
+  | None => negb (i_with_init i) && match o_index o with [] => true | _ => false end
+  | Some io => i_with_init i && P_init i io && P_index i io (o_index o)
   end.
 
 (* ---- domain: what a file system can hold ---- *)
